@@ -261,6 +261,8 @@ def writable(e):
     for f in e.flags:
         if f != f.strip(' \t\r\f\v') or ',' in f or '\n' in f or '\r' in f or '\x0b' in f or '\x0c' in f or '\x1c' in f or '\x85' in f or ' ' in f:
             return False
+    if e.flags and not ', '.join(e.flags).strip():
+        return False            # a bare `#,` line is skipped by the loader
     strs = [e.msgid, e.msgctxt, e.msgid_plural, e.msgstr, e.previous_msgid, e.previous_msgctxt, e.previous_msgid_plural] + list(e.msgstr_plural.values())
     for s in strs:
         if s is None:
